@@ -146,7 +146,7 @@ def run(ctx):
                                selftest=True, timeout=3600, stage=d)
         if not q:
             ctx.validate_recording(b, 'ChainTx_Trace', _cfg(ctx, d, 'ChainTx_Trace.cfg', 'ChainTx_TraceW.cfg', LO='1', HI='2'),
-                                   opts=dict(n=20, len=14, ids=6, lo=1, hi=2, salt=1), selftest=False, timeout=3600, stage=d)
+                                   opts=dict(n=20, len=14, ids=6, lo=1, hi=2, salt=1, dcs=1), selftest=False, timeout=3600, stage=d)
     finally:
         vlib.sh([b, 'sweep'], timeout=60)
 
